@@ -70,12 +70,19 @@ inductive Entry where
   /-- `bounded_gather2(sema, …)` / `OnlineBoundedGather2(sema)` called by a coroutine that holds one permit of
   `sema = asyncio.Semaphore(n)` (the convention `WithoutSemaphore` is written for) -/
   | holdingPermit
-  /-- `bounded_gather(*pfs, parallelism=n)`: `bounded_gather2(asyncio.Semaphore(n), …)` — nobody holds a permit -/
+  /-- `bounded_gather(*pfs, parallelism=n)`: `sema = asyncio.Semaphore(n); async with sema: return await bounded_gather2(sema, …)`
+  — since the repair b83b6cc09 the same situation as `holdingPermit` (before it: `bounded_gather2(asyncio.Semaphore(n), …)`, nobody
+  held a permit) -/
   | boundedGather
   deriving DecidableEq, Repr
 
-/-- `sema._value` when the helper is called, for a semaphore created with `n` permits -/
+/-- `sema._value` when `bounded_gather2` / the pool is entered, for a semaphore created with `n` permits: the caller holds one -/
 def valueAtCall (n : Nat) : Entry → Nat
+  | .holdingPermit => n - 1
+  | .boundedGather => n - 1
+
+/-- before the repair b83b6cc09 `bounded_gather` passed a fresh semaphore nobody held a permit of -/
+def valueAtCallOld (n : Nat) : Entry → Nat
   | .holdingPermit => n - 1
   | .boundedGather => n
 
@@ -149,12 +156,11 @@ def cancelBelow : Nat → List TSt → Nat × List TSt
 
 def cancelAll (l : List TSt) : Nat × List TSt := cancelBelow l.length l
 
-/-- the coroutine that called the helper leaves its `async with sema:` block (releasing "its" permit) as soon as the helper has
-returned or raised; under `bounded_gather` there is no such block -/
+/-- the coroutine that called the helper (`bounded_gather` itself for that entry) leaves its `async with sema:` block, releasing
+"its" permit, as soon as the helper has returned or raised -/
 def leave (s : State) : State :=
-  match s.entry with
-  | .holdingPermit => let p := grant (s.free + 1) s.st; { s with st := p.2, free := p.1 }
-  | .boundedGather => s
+  let p := grant (s.free + 1) s.st
+  { s with st := p.2, free := p.1 }
 
 /-- the helper is called for a semaphore created with `n` permits and the loop runs to quiescence -/
 def start (fl : Flavour) (en : Entry) (n : Nat) (outs : List Outcome) : State :=
@@ -223,10 +229,10 @@ def step (s : State) : Op → Option State
       | .raiseCancel =>
         match s.helper, o with
         | .active, .raise e =>
-          -- `finally:` … `for task in tasks: if task.done() and not task.cancelled(): exc = task.exception(); if exc: raise exc
-          -- else: task.cancel()`: the loop cancels the unfinished tasks BEFORE the failed one and then re-raises at the
-          -- failed task; the tasks after it are not cancelled and `asyncio.wait(tasks)` is not reached
-          some (raiseNow (cancelFirst s1 i) e (nNotDone s1.st) false)
+          -- `finally:` … `for task in tasks: if not task.done(): task.cancel()`, then
+          -- `async with WithoutSemaphore(sema): await asyncio.wait(tasks)` (releases and re-acquires one permit: net nothing),
+          -- then the original exception propagates: every task is finished when the helper raises
+          some (raiseNow (cancelFirst s1 s1.st.length) e 0 false)
         | .active, .ret _ => if allDone s1.st then some (returnNow s1) else some s1
         | _, _ => some s1
       | .online =>
@@ -249,10 +255,9 @@ def step (s : State) : Op → Option State
     | .online, .active =>
       match o, s.exc with
       | .raise e, none =>
-        -- `__aexit__(exc_val)`: `self._exception = exc_val; await self._shutdown()` cancels every pending task; the event is
-        -- already set and the permit just released is free, so `__aexit__` raises WITHOUT yielding to the loop: the cancelled
-        -- tasks have not run yet when the caller sees the exception
-        some (raiseNow (withExc (cancelFirst s s.st.length) e) e (nNotDone s.st) false)
+        -- `__aexit__(exc_val)`: `self._exception = exc_val; await self._shutdown()` cancels every pending task and waits for
+        -- them (`await asyncio.wait(cancelled)`), then `__aexit__` raises
+        some (raiseNow (withExc (cancelFirst s s.st.length) e) e 0 false)
       | _, some e0 =>
         -- a task failed during the body: the pool is already shut down; a body exception is logged and discarded
         some (raiseNow s e0 0 false)
@@ -261,6 +266,43 @@ def step (s : State) : Op → Option State
         let s1 := releaseOwn s
         if allDone s1.st then some (returnNow s1) else some { s1 with helper := .exiting }
     | _, _ => none
+
+/-! ### the code before the repairs b83b6cc09 (F1), 2f78d4573 (F2), 426463a22 (F3) — kept to document the repaired defects -/
+
+/-- F1: `bounded_gather` handed `bounded_gather2` a fresh `Semaphore(n)` nobody held a permit of -/
+def startOld (fl : Flavour) (en : Entry) (n : Nat) (outs : List Outcome) : State :=
+  let v0 := valueAtCallOld n en
+  let q := outs.map fun _ => TSt.queued
+  match fl with
+  | .online => let p := grant v0 q; ⟨fl, en, outs, p.2, p.1, .active, none, 0⟩
+  | _ =>
+    if outs.isEmpty then ⟨fl, en, outs, [], v0, .returned [], none, 0⟩
+    else let p := grant (v0 + 1) q; ⟨fl, en, outs, p.2, p.1, .active, none, 0⟩
+
+/-- F2: the clean-up loop of `cancel_on_error=True` was `for task in tasks: if task.done() and not task.cancelled(): exc =
+task.exception(); if exc: raise exc  else: task.cancel()` — it cancelled only the unfinished tasks BEFORE the failed one, re-raised
+at the failed task and never reached `asyncio.wait(tasks)`.
+F3: `OnlineBoundedGather2._shutdown` cancelled the pending tasks without waiting for them, so when the body raised `__aexit__`
+raised without yielding to the loop. -/
+def stepOld (s : State) : Op → Option State
+  | .finish i =>
+    match s.st[i]?, s.outs[i]?, s.flavour, s.helper with
+    | some .running, some (.raise e), .raiseCancel, .active =>
+      let s1 := complete s i (.raise e)
+      some (raiseNow (cancelFirst s1 i) e (nNotDone s1.st) false)
+    | _, _, _, _ => step s (.finish i)
+  | .body (.raise e) =>
+    match s.flavour, s.helper, s.exc with
+    | .online, .active, none => some (raiseNow (withExc (cancelFirst s s.st.length) e) e (nNotDone s.st) false)
+    | _, _, _ => step s (.body (.raise e))
+  | op => step s op
+
+def runFromWith (f : State → Op → Option State) : State → List Op → Option State
+  | s, [] => some s
+  | s, op :: ops =>
+    match f s op with
+    | none => none
+    | some s' => runFromWith f s' ops
 
 def runFrom : State → List Op → Option State
   | s, [] => some s
